@@ -22,6 +22,8 @@ import (
 // ledgerRun is the skeleton shared by the ledger checks: draw a scenario, start
 // replicas, run rounds; each check adds its own oracle after every committed block.
 type ledgerRun struct {
+	// rejectPred: when set, a rejection of the honest block by a replica is a violation with this predicate
+	rejectPred string
 	r      *vfw.Run
 	s      *scen.Scn
 	l      *scen.Ledger
@@ -66,6 +68,8 @@ func (lr *ledgerRun) loop(strictProp string, before func(rr *scen.RoundResult) b
 		cert := lr.l.BuildCert(lr.nodes[0], rr)
 		if strictProp != "" {
 			lr.l.InsertAll(lr.nodes, rr, strictProp)
+		} else if lr.rejectPred != "" {
+			lr.l.InsertAll(lr.nodes, rr, lr.rejectPred)
 		} else if !lr.l.TryInsertAll(lr.nodes, rr) {
 			return
 		}
